@@ -72,6 +72,12 @@ static void canon(Janet x) {
     if (janet_checktype(x, JANET_TUPLE)) {
         const Janet *t = janet_unwrap_tuple(x);
         int32_t n = janet_tuple_length(t);
+        /* supervisor event (:ok fiber task-id) / (:error fiber task-id): 90000 + 10 * fiber + (error ? 1 : 0) */
+        if (n == 3 && janet_checktype(t[0], JANET_KEYWORD) && janet_checktype(t[1], JANET_FIBER)) {
+            const char *k = (const char *) janet_unwrap_keyword(t[0]);
+            int f = fidx(janet_unwrap_fiber(t[1]));
+            if (f >= 0 && (!strcmp(k, "ok") || !strcmp(k, "error"))) { lput("%d", 90000 + 10 * f + (strcmp(k, "ok") ? 1 : 0)); return; }
+        }
         if (n >= 2 && janet_checktype(t[0], JANET_KEYWORD) && janet_checktype(t[1], JANET_ABSTRACT)) {
             const char *k = (const char *) janet_unwrap_keyword(t[0]);
             int c = cidx(janet_unwrap_abstract(t[1]));
